@@ -432,6 +432,9 @@ func (s *Server) handleDiscover(req *dhcpv4.DHCPv4) (*dhcpv4.DHCPv4, error) {
 			s.leasesByCircuitIDMu.Unlock()
 		}
 		s.purgeFastPathCache(mac, existingLease)
+		// The old session ended when its lease ran out; the REQUEST that
+		// follows this OFFER starts a new one
+		s.endSession(existingLease, radius.TerminateCauseSessionTimeout)
 		existingLease = nil
 	}
 
@@ -1075,12 +1078,70 @@ func (s *Server) handleDecline(req *dhcpv4.DHCPv4) {
 
 		// The lease is gone: the fast path must stop answering for it
 		s.purgeFastPathCache(mac, lease)
+
+		// ... and the session is over: stop accounting, drop QoS and NAT
+		s.endSession(lease, radius.TerminateCauseUserRequest)
 		return
 	}
 
 	// DECLINE of an address that was offered but not yet acknowledged
 	if pool := s.poolMgr.ClassifyClient(mac); pool != nil && pool.AllocatedTo(mac, declinedIP) {
 		pool.Decline(mac, declinedIP)
+	}
+}
+
+// endSession releases what handleRequest attached to a session when the
+// session ends by a path other than RELEASE (DECLINE, lease expiry, retirement
+// of an expired lease): the RADIUS accounting session is stopped, the QoS
+// policy removed and the NAT port block returned, exactly as handleRelease
+// does. The lease itself, the pool allocation and the fast path cache are the
+// caller's business.
+func (s *Server) endSession(lease *Lease, terminateCause uint32) {
+	if lease == nil {
+		return
+	}
+
+	if s.radiusClient != nil && lease.SessionID != "" {
+		sessionTime := uint32(time.Since(lease.SessionStart).Seconds())
+		mac := lease.MAC
+		go func() {
+			err := s.radiusClient.SendAccounting(context.Background(), &radius.AcctRequest{
+				SessionID:      lease.SessionID,
+				Username:       mac.String(),
+				MAC:            mac,
+				FramedIP:       lease.IP,
+				StatusType:     radius.AcctStatusStop,
+				InputOctets:    lease.InputBytes,
+				OutputOctets:   lease.OutputBytes,
+				SessionTime:    sessionTime,
+				TerminateCause: terminateCause,
+				Class:          lease.Class,
+			})
+			if err != nil {
+				s.logger.Warn("Failed to send RADIUS Accounting-Stop",
+					zap.String("session_id", lease.SessionID),
+					zap.Error(err),
+				)
+			}
+		}()
+	}
+
+	if s.qosMgr != nil {
+		if err := s.qosMgr.RemoveSubscriberQoS(lease.IP); err != nil {
+			s.logger.Warn("Failed to remove QoS policy",
+				zap.String("ip", lease.IP.String()),
+				zap.Error(err),
+			)
+		}
+	}
+
+	if s.natMgr != nil {
+		if err := s.natMgr.DeallocateNAT(lease.IP); err != nil {
+			s.logger.Warn("Failed to deallocate NAT",
+				zap.String("ip", lease.IP.String()),
+				zap.Error(err),
+			)
+		}
 	}
 }
 
@@ -1272,6 +1333,9 @@ func (s *Server) cleanupExpiredLeases() {
 				s.purgeFastPathCache(hwAddr, lease)
 			}
 		}
+
+		// The session ended with its lease: stop accounting, drop QoS and NAT
+		s.endSession(lease, radius.TerminateCauseSessionTimeout)
 	}
 	s.leasesMu.Unlock()
 
